@@ -392,16 +392,20 @@ class FunctionReference:
             if memento_fn is not None and memento_fn.fn is not None
             else self._module + ":" + self._function_name
         )
+        # Whether the name carries a cluster is decided before the version is appended: a
+        # version string may itself contain "::".
+        has_cluster = "::" in qualified_name
+        if cluster_name is not None and not has_cluster:
+            qualified_name = cluster_name + "::" + qualified_name
+            has_cluster = True
         if version is not None:
             qualified_name += "#" + version
-        if cluster_name is not None and "::" not in qualified_name:
-            qualified_name = cluster_name + "::" + qualified_name
         self._qualified_name = qualified_name
 
         self._qualified_name_without_cluster = (
-            self.qualified_name
-            if "::" not in self.qualified_name
-            else self.qualified_name[self.qualified_name.find("::") + 2 :]
+            self.qualified_name[self.qualified_name.find("::") + 2 :]
+            if has_cluster
+            else self.qualified_name
         )
 
         self.qualified_name_without_version = self.module + ":" + self.function_name
